@@ -641,9 +641,21 @@ pub fn run(ctx: &Ctx) {
     l.transitions += 1;
     match guard(|| {
       let f = FetusDay::new(sc());
-      (f.get_fetus_heaven_stem().get_name(), f.get_fetus_earth_branch().get_name(), f.get_side() == Side::IN, f.get_direction().get_name())
+      (f.get_fetus_heaven_stem().get_name(), f.get_fetus_earth_branch().get_name(), f.get_side() == Side::IN, f.get_direction().get_name(), f.to_string())
     }) {
-      Ok((fs, fb, side, dir)) => {
+      Ok((fs, fb, side, dir, full)) => {
+        // the printed name: place (门门 -> 占大门, 碓磨碓 -> 占碓磨, 房床床 -> 占房床, 门x -> 占门x) + 房内 / 外 + direction (正 before a cardinal one outside)
+        let place = match format!("{}{}", fetus_stem(STEMS[i % 10]), fetus_branch(BRANCHES[i % 12])).as_str() {
+          "门门" => "占大门".to_string(),
+          "碓磨碓" => "占碓磨".to_string(),
+          "房床床" => "占房床".to_string(),
+          p if p.starts_with("门") => format!("占{}", p),
+          p => p.to_string(),
+        };
+        let want_full = format!("{} {}{}{}", place, if side { "房内" } else { "外" }, if !side && ["北", "南", "西", "东"].contains(&dir.as_str()) { "正" } else { "" }, dir);
+        if full != want_full {
+          ctx.violation("fetus", format!("pillar {} foetus spirit name", name), format!("impl '{}', composed from the classical place / side / direction '{}'", full, want_full), vec!["all".into()]);
+        }
         if fs != fetus_stem(STEMS[i % 10]) || fb != fetus_branch(BRANCHES[i % 12]) || side != inside || !dirs.contains(&dir.as_str()) {
           ctx.violation("fetus", format!("pillar {} foetus spirit", name), format!("impl ({}, {}, inside={}, {}), classical ({}, {}, inside={}, {:?})", fs, fb, side, dir, fetus_stem(STEMS[i % 10]), fetus_branch(BRANCHES[i % 12]), inside, dirs), vec!["all".into()]);
         }
